@@ -29,12 +29,17 @@ func backSlice(v ssa.Value, visit func(ssa.Value) bool) {
 		switch y := x.(type) {
 		case *ssa.Parameter:
 			// a private helper's parameter is the argument at its only call site (inline.go)
-			if h := helperOf(y.Parent()); h != nil && y.Parent().Parent() == nil {
+			if h := exactHelper(y.Parent()); h != nil {
 				for _, st := range h.sites {
 					if idx := paramIndex(y.Parent(), y); idx >= 0 && idx < len(st.Common().Args) {
 						walk(st.Common().Args[idx])
 					}
 				}
+			}
+		case *ssa.FreeVar:
+			// a private closure's captured variable is the cell bound where the closure is made (inline.go)
+			if r := resolveArg(y); r != ssa.Value(y) {
+				walk(r)
 			}
 		case *ssa.Phi:
 			for _, e := range y.Edges {
@@ -54,7 +59,7 @@ func backSlice(v ssa.Value, visit func(ssa.Value) bool) {
 			walk(y.X)
 		case *ssa.Extract:
 			if call, isC := y.Tuple.(*ssa.Call); isC {
-				if cal := call.Call.StaticCallee(); cal != nil && helperOf(cal) != nil && cal.Parent() == nil {
+				if cal := call.Call.StaticCallee(); cal != nil && exactHelper(cal) != nil {
 					for _, b := range cal.Blocks {
 						if r, isR := b.Instrs[len(b.Instrs)-1].(*ssa.Return); isR && b != cal.Recover && y.Index < len(r.Results) {
 							walk(resolveSpill(r.Results[y.Index], r))
@@ -96,7 +101,7 @@ func backSlice(v ssa.Value, visit func(ssa.Value) bool) {
 			}
 		case *ssa.Call:
 			// the single-result value of a private helper is what the helper returns (inline.go)
-			if cal := y.Call.StaticCallee(); cal != nil && helperOf(cal) != nil && cal.Parent() == nil && cal.Signature.Results().Len() == 1 {
+			if cal := y.Call.StaticCallee(); cal != nil && exactHelper(cal) != nil && cal.Signature.Results().Len() == 1 {
 				for _, b := range cal.Blocks {
 					if r, isR := b.Instrs[len(b.Instrs)-1].(*ssa.Return); isR && b != cal.Recover && len(r.Results) == 1 {
 						walk(resolveSpill(r.Results[0], r))
